@@ -188,13 +188,14 @@ def _recv_stream(case):
     """-> list of (raw bytes, tokens) per message"""
     out = []
     for m in case['msgs']:
-        if m['type'] == 1 and m.get('nh') is not None:
+        if m.get('nh') is not None:
+            # any message type may carry descriptors on the wire (replies and signals of other implementations do)
             toks = _tokens(m['sig'], m['trees'])
             trees = _replace_tokens(m['sig'], m['trees'], _Counter())
             f = {R.FIELD_CODE[k]: v for k, v in m['fields'].items()}
             if toks:
                 f[9] = len(toks)
-            raw = R.encode_message(1, m['serial'], f, m['sig'], trees, m['little'])
+            raw = R.encode_message(m['type'], m['serial'], f, m['sig'], trees, m['little'])
             out.append((raw, toks))
         else:
             out.append((S.ref_message_bytes(m, m['little']), []))
@@ -270,7 +271,7 @@ def run_recv(case):
     if len(r.got) != len(case['msgs']):
         return [Disc('recv.count', 'sent %d delivered %d' % (len(case['msgs']), len(r.got)))]
     for i, (m, a) in enumerate(zip(r.got, case['msgs'])):
-        if a['type'] == 1 and a.get('nh') is not None:
+        if a.get('nh') is not None:
             exp = S.normal_forms(a['sig'], a['trees']) if a['sig'] else None
             if a['sig'] and not R.nf_equal(m.body, exp):
                 out.append(Disc('recv.fd-attribution', 'message %d expected %r got %r; events %r' % (
@@ -324,7 +325,10 @@ def recv_msg(draw, tok_base):
     toks = _tokens(sig, trees)
     mp = {t: tok_base + i for i, t in enumerate(toks)}
     trees = _replace_tokens(sig, trees, lambda t: mp[t])
-    m = {'type': 1, 'fields': {'path': '/o', 'member': 'Take'}, 'sig': sig, 'trees': trees, 'pres': [],
+    t = draw(st.sampled_from([1, 1, 2, 3, 4]))
+    fields = {1: {'path': '/o', 'member': 'Take'}, 2: {'reply_serial': 5}, 3: {'error_name': 'a.b.E', 'reply_serial': 5},
+              4: {'path': '/o', 'member': 'Gave', 'interface': 'a.b'}}[t]
+    m = {'type': t, 'fields': fields, 'sig': sig, 'trees': trees, 'pres': [],
          'no_reply': False, 'no_auto': False, 'serial': draw(st.integers(1, 2**32 - 1)), 'nh': nh,
          'little': draw(st.booleans())}
     return m, nh
@@ -362,7 +366,10 @@ def enum_recv(tier):
                 sig = 'h' * c + 'i'
                 trees = [base + j for j in range(c)] + [mi]
                 base += c
-                msgs.append({'type': 1, 'fields': {'path': '/o', 'member': 'Take'}, 'sig': sig, 'trees': trees,
+                t = [1, 2, 4][(mi + n) % 3]
+                fl = {1: {'path': '/o', 'member': 'Take'}, 2: {'reply_serial': 5},
+                      4: {'path': '/o', 'member': 'Gave', 'interface': 'a.b'}}[t]
+                msgs.append({'type': t, 'fields': fl, 'sig': sig, 'trees': trees,
                              'pres': [], 'no_reply': False, 'no_auto': False, 'serial': mi + 1, 'nh': c,
                              'little': True})
             nfd = sum(counts)
